@@ -5,6 +5,7 @@ import (
 	"bytes"
 	"encoding/hex"
 	"fmt"
+	fixgen "github.com/b2broker/simplefix-go/tests/fix44"
 	"math/rand"
 	"os"
 	"os/exec"
@@ -301,7 +302,7 @@ func soup(r *rand.Rand, tg *target) []byte {
 
 func main() {
 	c := vk.Init("C11")
-	c.Rule("inputs: (a) every string of length 0..3 over {8,9,=,SOH,1,0,x} (exhaustive, 400 strings); (b) field soups built from the target template's own tags (missing '=', empty fields, repeated SOH, group counts without followers / with wrong counts / wrong first tags, CheckSum tag in the middle) and then frame-fixed by the reference encoder so that they pass the integrity check and reach field and group parsing; (c) byte-level mutations of valid library output; (d) coverage-guided inputs from go test -fuzz (iteration-bounded). Each input is parsed strict and non-strict into every tests/fix44 type and generated templates with nested groups, as an exact-capacity slice and again embedded in a larger buffer with an adversarial tail (results must agree), and looked up with ValueByTag; a sample of the soups (also re-typed as administrative messages) is fed to running sessions of both roles through ServeIncoming, where a panic in the handler loop is recorded. distinct = hash(input, target); non-trivial = the input passes the integrity check (CheckFrame) or is shorter than a framing tag; (f) every all-digit field of valid generated messages given each of 26 hostile values (negative, signed, padded, empty, beyond 32/63/64 bits, exponent/hex/non-ASCII digits), with the frame left as it is and with BodyLength/CheckSum recomputed around the value")
+	c.Rule("inputs: (a) every string of length 0..3 over {8,9,=,SOH,1,0,x} (exhaustive, 400 strings); (b) field soups built from the target template's own tags (missing '=', empty fields, repeated SOH, group counts without followers / with wrong counts / wrong first tags, CheckSum tag in the middle) and then frame-fixed by the reference encoder so that they pass the integrity check and reach field and group parsing; (c) byte-level mutations of valid library output; (d) coverage-guided inputs from go test -fuzz (iteration-bounded). Each input is parsed strict and non-strict into every tests/fix44 type and generated templates with nested groups, as an exact-capacity slice and again embedded in a larger buffer with an adversarial tail (results must agree), and looked up with ValueByTag; a sample of the soups (also re-typed as administrative messages) is fed to running sessions of both roles through ServeIncoming, where a panic in the handler loop is recorded. distinct = hash(input, target); non-trivial = the input passes the integrity check (CheckFrame) or is shorter than a framing tag; (f) every all-digit field of valid generated messages given each of 26 hostile values (negative, signed, padded, empty, beyond 32/63/64 bits, exponent/hex/non-ASCII digits), with the frame left as it is and with BodyLength/CheckSum recomputed around the value; (g) the same 26 values in the numeric fields of well-formed ResendRequest / TestRequest / Heartbeat / SequenceReset / Logon messages fed to logged-on sessions with stored messages")
 	c.Assume("a panic is caught by recover in the calling goroutine; fatal errors kill the child, which the orchestrator reports as a violation with the input last logged to disk")
 	tgs := targets(c)
 	nSoup := c.Pick(24000, 700000) // per run, spread over targets
@@ -610,6 +611,45 @@ func main() {
 			res := rg.Inbound(data)
 			c.Count("session_inbound_hostile_messages", 1)
 			c.Eval(vk.Hash64([]byte("session"), data), fixref.CheckFrame(fixref.Std, data) == nil)
+			if res.Panic != "" {
+				c.Violate("C11/panic-in-session-inbound-path/"+panicClass(strings.SplitN(res.Panic, "\n", 2)[0], res.Panic), fmt.Sprintf("%s session: the inbound path panicked on %s:\n%s", role, vk.Trunc(fixref.Pretty(data), 300), vk.Trunc(res.Panic, 1500)), map[string]interface{}{"input_hex": hex.EncodeToString(data), "role": role.String()})
+				return
+			}
+			if res.RunEnded || res.TimedOut {
+				return
+			}
+		}
+	})
+	// (g) hostile numbers through a logged-on session: well-formed admin messages (correct BodyLength and CheckSum)
+	// whose numeric fields carry the hostile values — the session hands them to its stores and timers
+	vk.Parallel(len(hostile)*2, nw, func(i int) {
+		hv := hostile[i%len(hostile)]
+		role := rig.Role(i / len(hostile))
+		rg, err := rig.NewStepRig(rig.StepCfg{Role: role, HeartBtInt: 30, Limits: &session.IntLimits{Min: 5, Max: 60}, SentinelBarrier: true})
+		if err != nil {
+			return
+		}
+		defer rg.Close()
+		p := rig.NewPeer()
+		if res := rg.Inbound(p.Logon(30, "0")); !res.Logged {
+			return
+		}
+		for k := 0; k < 3; k++ {
+			rg.Do(func() error { return rg.S.Send(fixgen.CreateMarketDataRequestReject("stored")) })
+		}
+		msgs := [][]byte{
+			p.Msg("2", fixref.F(rig.TBeginSeq, hv), fixref.F(rig.TEndSeq, "0")),
+			p.Msg("2", fixref.F(rig.TBeginSeq, "1"), fixref.F(rig.TEndSeq, hv)),
+			p.Msg("2", fixref.F(rig.TBeginSeq, hv), fixref.F(rig.TEndSeq, hv)),
+			p.Msg("1", fixref.F(rig.TTestReqID, hv)),
+			rig.Reframe(p.Heartbeat(), map[string]string{rig.TSeq: hv}, nil),
+			p.Msg("4", fixref.F("36", hv), fixref.F("123", "Y")),
+			p.Msg("A", fixref.F(rig.TEncrypt, "0"), fixref.F(rig.THeartBt, hv)),
+		}
+		for _, data := range msgs {
+			res := rg.Inbound(data)
+			c.Count("session_inbound_hostile_numbers", 1)
+			c.Eval(vk.Hash64([]byte("session-numbers"), data), true)
 			if res.Panic != "" {
 				c.Violate("C11/panic-in-session-inbound-path/"+panicClass(strings.SplitN(res.Panic, "\n", 2)[0], res.Panic), fmt.Sprintf("%s session: the inbound path panicked on %s:\n%s", role, vk.Trunc(fixref.Pretty(data), 300), vk.Trunc(res.Panic, 1500)), map[string]interface{}{"input_hex": hex.EncodeToString(data), "role": role.String()})
 				return
